@@ -259,3 +259,118 @@ def pairsetup_family(run, replay=None):
     assumptions = ['the reference controller implements SRP-6a / HKDF / ChaCha20-Poly1305 / Ed25519 as in the HAP specification (it completes honest pairings with hc in this very run)',
                    'one seeded concretisation (setup code, controller identifier, key pair, flipped bit) per abstract word']
     return finish(run, 'model_checking', {}, behs, lines, viols, cov, assumptions, 'pairsetup', confirm=confirm)
+
+
+# =====================================================================================================
+# Notify family: C10
+# =====================================================================================================
+
+NT_GUARDS = ["skip_originator", "only_subscribed", "unsubscribe_clears", "session_removed_on_close", "no_event_on_same_value",
+             "subscribe_requires_ev_perm", "notified_once", "write_tolerates_vanished_session"]
+
+
+def nt_cfg(conn, chars, weak=(), tail='', consts=''):
+    return '''CONSTANTS
+  Conn = %s
+  Char = %s
+  Evented = {"x", "y"}
+  Weak = %s
+  %s
+CHECK_DEADLOCK FALSE
+%s
+''' % (tla_set(conn), tla_set(chars), tla_set(weak), consts, tail)
+
+
+def generic_family(run, replay, *, hcv, trace_mod, gen, rules, level, assumptions, rule_text, nontrivial, sanity=None, extra_cov=None, fpfun=None):
+    """Common pipeline: model check + generate (callback) -> harness -> trace validation -> verdict."""
+    bpath = os.path.join(run.dir, 'beh.ndjson')
+    if replay:
+        behs = [replay['behaviour']]
+        with open(bpath, 'w') as f:
+            f.write(json.dumps(behs[0]) + '\n')
+        stats = dict(replay=True)
+    else:
+        groups, stats = gen(run)
+        behs = write_behs(bpath, groups)
+    run.build_harness()
+    tpath = os.path.join(run.dir, 'trace.ndjson')
+    out = run.harness(hcv, ['--beh', bpath, '--trace', tpath, '--seed', run.seed, '--tier', run.tier])
+    log('  ' + out.strip().splitlines()[-1][:300])
+    viols, ok, _ = run.validate(trace_mod, trace_mod + '.cfg', tpath)
+    lines = read_ndjson(tpath)
+
+    def confirm(b, rule):
+        p2 = os.path.join(run.dir, 'confirm.ndjson')
+        t2 = os.path.join(run.dir, 'confirm-trace.ndjson')
+        with open(p2, 'w') as f:
+            f.write(json.dumps(b) + '\n')
+        for attempt in range(3):      # schedule-dependent findings may need more than one execution
+            run.harness(hcv, ['--beh', p2, '--trace', t2, '--seed', run.seed + attempt, '--tier', run.tier])
+            v2, _, _ = run.validate(trace_mod, trace_mod + '.cfg', t2)
+            if any(v[0] == rule for v in v2):
+                return True
+        return False
+
+    if sanity and not replay:
+        sanity(lines, behs)
+    cov = mc_summary(run)
+    cov.update(stats)
+    cov.update(dict(
+        traces_validated_against_impl=len(behs),
+        evaluations=sum(1 for x in lines if x.get('ev') not in ('reset',)),
+        distinct_nontrivial=len(set(canon_word(b['steps']) for b in behs if nontrivial(b))),
+        rule=rule_text,
+        samples=[dict(behaviour=b, observed=[x for x in lines if x.get('case') == b['id']][:6]) for b in behs[:1]] + [dict(behaviour=b) for b in behs[-2:]],
+        trace_lines=len(lines), rules=sorted(r for r, p in rules.items() if p == run.prop),
+    ))
+    if extra_cov:
+        cov.update(extra_cov(lines, behs))
+    return finish(run, level, rules, behs, lines, viols, cov, assumptions, hcv, confirm=confirm, fpfun=fpfun)
+
+
+def notify_gen(run):
+    thorough = run.tier == 'thorough'
+    run.model_check('Notify', 'Notify_MC.cfg', workers=8)
+    t = 'INIT HInit\nNEXT HNext\n'
+    edge = dedupe_prefixes(run.generate('NotifyGen', cfgtext=nt_cfg(["c1", "c2", "c3"], ["x", "y", "z"], tail=t + 'INVARIANT EmitEdge\nVIEW EdgeView'), timeout=1200))
+    nedge = len(edge)
+    if not thorough:
+        edge = sample(edge, 2500, run.seed)
+    n = 4 if thorough else 3
+    words = run.generate('NotifyGen', cfgtext=nt_cfg(["c1", "c2"], ["x", "z"], consts='MaxLen = %d' % n, tail=t + 'INVARIANT EmitWord\nCONSTRAINT WordBound'), timeout=1800)
+    nall = len(words)
+    words = sample(words, 30000 if thorough else 1500, run.seed)
+    attacks = []
+    for g in NT_GUARDS:
+        a = run.generate('NotifyGen', cfgtext=nt_cfg(["c1", "c2", "c3"], ["x", "y", "z"], weak=[g], tail=t + 'INVARIANT NoAttack\nVIEW AttackView'), expect_violation=True)
+        if not a:
+            raise ToolTrouble('no attack word for guard %s' % g)
+        attacks.append((g, a[0]))
+    depth = 14 if thorough else 10
+    sim = run.generate('NotifyGen', cfgtext=nt_cfg(["c1", "c2", "c3"], ["x", "y", "z"], consts='SimLen = %d' % depth, tail=t + 'INVARIANT EmitSim'),
+                       simulate='num=%d' % (20000 if thorough else 400), heap='2g', timeout=1200, depth=depth + 1)
+    groups = [('edge', edge), ('word', words)] + [('attack:' + g, [a]) for g, a in attacks] + [('sim', sim)]
+    return groups, dict(edge_words=len(edge), edge_words_enumerated=nedge, words_enumerated=nall, words_replayed=len(words), word_len=n,
+                        attack_words=len(attacks), sim_words=len(sim), sim_depth=depth)
+
+
+@register('C10')
+def notify_family(run, replay=None):
+    def sanity(lines, behs):
+        ev = sum(len(x.get('got', [])) for x in lines if x.get('ev') == 'act')
+        if ev == 0:
+            raise ToolTrouble('vacuous run: no EVENT was ever observed')
+
+    def extra(lines, behs):
+        return dict(events_observed=sum(len(x.get('got', [])) for x in lines if x.get('ev') == 'act'),
+                    racing_close_steps=sum(1 for x in lines if x.get('a') == 'LocalRace' and not x.get('skipped')),
+                    steps_skipped_drift=sum(1 for x in lines if x.get('skipped')))
+    return generic_family(run, replay, hcv='notify', trace_mod='NotifyTrace', gen=notify_gen,
+                          rules={'ExactlyOnce': 'C10', 'NoAppPanic': 'C10', 'FenceAnswered': 'C10'}, level='model_checking',
+                          assumptions=['three reference controllers with pre-seeded pairings, real pair-verify, encrypted sessions over loopback TCP',
+                                       'EVENTs are attributed to an action by fencing every open connection with its own request/response after the action (events are written synchronously by hc before the causing call returns)',
+                                       'a closed connection cannot be observed receiving anything: observed white-box as "the context holds no session for it" and black-box as "a reconnect starts without subscriptions"',
+                                       'ProgrammableSwitchEvent (event per press by contract) is outside the same-value alphabet'],
+                          rule_text='TLC-generated histories of connect / close / subscribe / unsubscribe / local set / remote write / local set racing a close over 3 connections and 3 characteristics on 2 accessories (edge mode, words, attack words per named guard, simulation); distinct = canonical abstract word; non-trivial = the design spec expects at least one EVENT in it',
+                          nontrivial=lambda b: any(sum(s.get('exp', {}).values()) > 0 for s in b['steps']),
+                          sanity=sanity, extra_cov=extra)
